@@ -92,6 +92,13 @@ CLAIMED = {
             'Theorem for every table of valid symbols; representation independence is structural in the model and decided by '
             'the oracle comparing all queries across the three representations.',
             'Aliases with parentheses / non-text aliases are outside this property.', 'DESIGN.md section 4 C14'),
+    'C05': ('Coq proof (the token sequence of render / render_as_readable of any well-formed expression is parsed back to it; the '
+            'rendered string is the concatenation of fixed operator / parenthesis texts and the template applied to each license) '
+            '- partial: the string-to-token step by correspondence; producer results rendered and re-parsed on the implementation',
+            'Theorems for every well-formed expression tree and every template; the step from the rendered text to its tokens '
+            '(each key recognised again under an operator-word-free table) is decided by the oracle on results of parse, '
+            'simplify, dedup and combine_expressions.',
+            'Partial proof, see Props/C05.v header.', 'DESIGN.md section 4 C05'),
 }
 
 NOT_YET = 'check under construction in this session; see DESIGN.md section 4 for the planned theorem'
